@@ -5,7 +5,7 @@ COMMON_TB = []
 CHECKS = {
     "C19": dict(
         modules=["AggkitModel.Properties.C19"],
-        scenarios=[dict(name="globalindex")],
+        scenarios=[dict(name="globalindex"), dict(name="certcodec")],
         generated=[],
         leanchecker=True,
         level_text="Proved for all inputs in Lean 4 (no bound): C19_layout (contract bit layout), C19_roundtrip (all uint32 pairs, both flags), "
@@ -201,9 +201,39 @@ CHECKS = {
         assumptions=["the Agglayer applies exactly the submissions it acknowledges", "L2 blocks are not reorged while certificates over them are in flight", "block numbers < 2^32 (metadata offset is 32 bits: DESIGN F8)"],
         trusted_base=["hand model Model/Aggsender.lean", "fake Agglayer / signer / epoch notifier in the harness"],
     ),
+    "C03": dict(
+        modules=["AggkitModel.Properties.C03"],
+        scenarios=[dict(name="aggsender"), dict(name="certcodec")],
+        generated=[],
+        leanchecker=True,
+        level_text="Proved in Lean 4. Byte level, for every field value and any 32-byte hash function: C03_exit_leaf — the exit the node builds for a bridge event hashes (BridgeExit.Hash, the Agglayer's side) to exactly the leaf the event has in the L2 exit tree (Bridge.Hash), empty and non-empty metadata alike; C03_exit_fields — every field is carried over unchanged; "
+                   "C03_wire_leaf — the leaf recomputed from the submission message equals it; C03_metadata_roundtrip — the metadata of a certificate for blocks [f,t] decodes to that range, creation time and type (ranges narrower than 2^32 blocks). "
+                   "Protocol level, by the induction over all histories of C02: C03_root — in every reachable state every certificate the Agglayer received carries exactly the bridge events and claims of its block range in chain order, the deposit counts of its exits are prev, prev+1, … (the leaves that follow the tree its previous exit root commits to) and its new exit root is the root after exactly these leaves — for previous-certificate states none / settled / in error alike. PARTIAL as C02 (omitPrev=false). "
+                   "Tie: aggsender scenario (real PPFlow/baseFlow/query layer over the real bridge processor; what the fake Agglayer receives on the wire) with monitors comparing every wire exit field by field with the generated event, re-deriving the new exit root by appending the WIRE exits' hashes to an independent deposit-contract tree of the previous root, and decoding the metadata; "
+                   "certcodec scenario (real getBridgeExits / ConvertClaimToImportedBridgeExit / Bridge.Hash / BridgeExit.Hash / gRPC conversion / metadata codec vs the model's own Keccak, byte for byte).",
+        level_note="Trusted: Lean kernel; model/code correspondence (generator-bounded); exit roots are identified with leaf counts in the protocol model (justified by C01/C08 and checked per submission by the root-table monitor); Keccak is a parameter of the theorems (the driver runs a Lean Keccak-256 validated against go-ethereum's on every op).",
+        rule="aggsender: as C02. certcodec: 150 (quick) / 1200 (thorough) rounds, each: a random bridge (leaf type, networks 0 / max / random, zero / random addresses, amounts 0 / 2^256-1 / small / random width, metadata empty / 32 bytes / short / long), a certificate, a metadata word for ranges at 0, 2^32 boundaries and random, an arbitrary word to decode (versions 0-3); distinct non-trivial = distinct input shape classes",
+        assumptions=["as C02", "range width < 2^32 blocks (F8)"],
+        trusted_base=["hand models Model/Aggsender.lean, Model/Certificate.lean", "Lean Keccak-256 (driver only)"],
+    ),
+    "C10": dict(
+        modules=["AggkitModel.Properties.C10"],
+        scenarios=[dict(name="certcodec"), dict(name="aggsender")],
+        generated=[],
+        leanchecker=True,
+        level_text="Proved in Lean 4 for every certificate (any number of exits and imported exits, any field values) and any collision-free 32-byte hash: C10_pp_sensitive — equal PPHashToSign implies equal new exit root and equal sequence of imported global indexes; C10_fep_sensitive — equal FEPHashToSign implies equal new exit root, height, aggchain params and (global index, exit leaf) sequence; "
+                   "C10_exit_sensitive — equal exit leaves imply equal leaf type, token, destination, amount and metadata word; C10_id_sensitive / C10_imp_sensitive — the certificate id covers network, height, both exit roots, every exit leaf and every imported exit (leaf, claim data, global index); hence changing any covered field changes the commitment. "
+                   "C10_signed_is_commit — the PP commitment does not read the field filled in after signing; C03_wire_leaf — the exit leaf survives the wire conversion. The hypotheses on the hash are shown satisfiable in the model. Stated, not hidden: the rollup index under a set mainnet flag is not covered (C19), and an empty metadata hashes like keccak(\"\"). "
+                   "NOT modelled: JSON. That the hash handed to the signer is the commitment of the submitted message, that the submitted signature is the signer's output, and that the stored JSON copy reproduces the submitted message are decided on the real code by monitors (aggsender scenario: recording signer, wire capture, stored copy re-sent through the real gRPC conversion and compared with proto.Equal). "
+                   "Tie: certcodec scenario — real Certificate.Hash / PPHashToSign / FEPHashToSign / BridgeExit.Hash / GlobalIndex.Hash / gRPC conversion on certificates built by the real flow conversions, vs the model byte for byte; monitors perturb every covered field (about 40 perturbations per certificate) and require the real commitments to change.",
+        level_note="Trusted: Lean kernel; collision-freedom is an idealisation of Keccak-256; model/code correspondence (generator-bounded); JSON codecs and the signer call are observed, not proved; the FEP flow's own signing call is not exercised (its commitment function is).",
+        rule="certcodec: as C03, certificates with 0-3 exits and 0-3 imported exits (both claim kinds, mainnet and rollup global indexes incl. 0 and 2^32-1), heights 0 / 1 / 255 / 256 / 2^32 / 2^64-1 / random, signature or aggchain-proof data; aggsender: as C02",
+        assumptions=["Keccak-256 is collision-free"],
+        trusted_base=["hand model Model/Certificate.lean", "Lean Keccak-256 (driver only)", "recording signer in the harness"],
+    ),
     "C13": dict(
         modules=["AggkitModel.Properties.C13"],
-        scenarios=[dict(name="aggsender")],
+        scenarios=[dict(name="aggsender"), dict(name="certcodec")],
         generated=[],
         leanchecker=True,
         level_text="Proved in Lean 4 over the same machine and the same unbounded histories as C02 (crash between iterations, crash between SendCertificate and SaveLastSentCertificate — also of a replacement —, loss of the database at any time, restarts, failing Agglayer calls): "
